@@ -459,6 +459,33 @@ Section WithFloat.
         end
     | _ => Err
     end.
+  (* ---- trajectory: the dictionary save_rdtrajectory writes (data in line) and load_rdtrajectory reads; the loader indexes the parsed
+     JSON object directly: no aliases, unknown keys ignored, `cgmap` optional ---- *)
+  Record trajectory_obj := { tr_script : script_obj; tr_system : system_obj; tr_data : list F * (usys * dim); tr_t : list F * (usys * dim);
+                             tr_descr : str; tr_option : str; tr_cgmap : option (list Z) }.
+
+  Definition write_trajectory (t : trajectory_obj) : jv :=
+    JObj (wr schema_trajectory [option_map (fun m => JArr (map JInt m)) (tr_cgmap t); Some (write_unitarray (tr_data t)); Some (JStr (tr_descr t));
+                               Some (JStr (tr_option t)); Some (write_script (tr_script t)); Some (write_system (tr_system t));
+                               Some (write_unitarray (tr_t t))]).
+
+  Definition read_trajectory (v : jv) : res trajectory_obj :=
+    match v with
+    | JObj dct =>
+        match map (fun syn => field jv syn dct) schema_trajectory with
+        | [fcg; Some fdata; Some (JStr descr); Some (JStr opt); Some fscript; Some fsys; Some ft] =>
+            match read_script fscript, read_system default_usys fsys, read_unitarray dimAmount fdata, read_unitarray dimTime ft,
+                  (match fcg with None | Some JNull => Ok None
+                   | Some (JArr l) => match read_list (fun x => match x with JInt z => Ok z | _ => Err end) l with Ok m => Ok (Some m) | Err => Err end
+                   | Some _ => Err end) with
+            | Ok sc, Ok sy, Ok data, Ok ts, Ok cg =>
+                Ok {| tr_script := sc; tr_system := sy; tr_data := data; tr_t := ts; tr_descr := descr; tr_option := opt; tr_cgmap := cg |}
+            | _, _, _, _, _ => Err
+            end
+        | _ => Err
+        end
+    | _ => Err
+    end.
 End WithFloat.
 
 (* ---- executable comparison of JSON values, for the correspondence ---- *)
